@@ -203,6 +203,25 @@ type Client struct {
 	sent   int64
 	wclose bool
 	fin    chan struct{}
+	marks  []mark // arrival time of every chunk received
+}
+
+type mark struct {
+	end int // stream offset after the chunk
+	t   time.Time
+}
+
+// ArrivalOf returns when the byte at stream offset off-1 (i.e. the first off
+// bytes) had been received by the client; zero if not yet.
+func (cl *Client) ArrivalOf(off int) time.Time {
+	cl.mu.Lock()
+	defer cl.mu.Unlock()
+	for _, m := range cl.marks {
+		if m.end >= off {
+			return m.t
+		}
+	}
+	return time.Time{}
 }
 
 func newClient(c net.Conn, m *MonConn) *Client {
@@ -219,6 +238,9 @@ func (cl *Client) readLoop() {
 		cl.mu.Lock()
 		if n > 0 {
 			cl.buf = append(cl.buf, b[:n]...)
+			if len(cl.marks) < 1<<16 {
+				cl.marks = append(cl.marks, mark{len(cl.buf), time.Now()})
+			}
 		}
 		if err != nil {
 			cl.done = true
